@@ -174,10 +174,10 @@ impl Ty {
     }
 }
 
-pub const PRIMS: [&str; 19] = [
+pub const PRIMS: [&str; 20] = [
     "NULL", "BOOLEAN", "INTEGER", "OCTET STRING", "BIT STRING", "OBJECT IDENTIFIER", "UTF8String", "IA5String", "PrintableString",
     "NumericString", "VisibleString", "BMPString", "UniversalString", "GeneralString", "TeletexString", "GraphicString", "UTCTime",
-    "GeneralizedTime", "ANY",
+    "GeneralizedTime", "ANY", "T61String",
 ];
 
 /// referenced definitions every generated module carries
